@@ -61,7 +61,7 @@ def opQuery (st : DrvState) (j : Json) : J (DrvState × Json) := do
 /-! ### enumeration of the paths that exist -/
 
 def labelStr (o : SubsetOut) (n : Node) : String :=
-  match nodeLabel o n with
+  match nodeLabel o.descs n with
   | some l => String.ofList l
   | none => "?"
 
